@@ -8,6 +8,7 @@
      recv                       = host.rs  Tcp::receive_from_network (Data / Fin / Rst arms)
      close_half / reset         = host.rs  Tcp::close_stream_half / Tcp::reset_stream
      op_try_write / op_write    = net/tcp/stream.rs  WriteHalf::try_write / poll_write_priv
+                                   (a missing socket entry is reported before the credit test: fix e5646f9)
      op_shutdown                = net/tcp/stream.rs  WriteHalf::poll_shutdown_priv
      op_drop_w / op_drop_r      = net/tcp/stream.rs  Drop for WriteHalf / Drop for ReadHalf
      op_read / op_peek          = net/tcp/stream.rs  ReadHalf::poll_read_priv / poll_peek
@@ -223,6 +224,7 @@ Definition op_try_write (pending_on_full : bool) (s : sys) (x : side) (bs : list
       | [] => (s, ROkN 0)
       | _ =>
           if sh then (s, RErr BrokenPipe)
+          else if negb (is_some (sk (eps s x))) then (s, RErr BrokenPipe)   (* reset: fix e5646f9 *)
           else match cred s x with
           | O => (s, if pending_on_full then RPending else RErr WouldBlock)
           | S c =>
